@@ -1803,9 +1803,14 @@ class Parallel(Logger):
             _remaining_outputs = [] if self._exception else self._jobs
             self._jobs = collections.deque()
             self._jobs_set = set()
-            self._running = False
-            if not detach_generator_exit:
-                self._terminate_and_reset()
+            try:
+                if not detach_generator_exit:
+                    self._terminate_and_reset()
+            finally:
+                # Last: a call made by another thread must be refused until
+                # the backend of this run has been terminated, it would lose
+                # the workers it has just set up.
+                self._running = False
 
         while len(_remaining_outputs) > 0:
             batched_results = _remaining_outputs.popleft()
